@@ -137,6 +137,9 @@ def add_m(y, m, k):
 
 
 def metas(rng, n_slices):
+    """One entry per slice: a list of EQUAL Metadata objects spelled differently (HARDENING A: detail keys in another
+    order, 7 vs 7.0, True vs 1, limit 1000 vs 1000.0); the slices differ in ways that flatten alike (B: attribute
+    vs detail of the same name, the same key in details vs loss_details, loss_details only, None vs "" vs missing)."""
     from bermuda import Metadata
 
     base = {}
@@ -144,24 +147,75 @@ def metas(rng, n_slices):
         base["country"] = rng.choice(["US", "DE"])
     if rng.random() < 0.4:
         base["details"] = {"lob": rng.choice(["auto", "home"])}
-    out = [Metadata(**base)]
+    kws = [base]
     for i in range(1, n_slices):
         kw = {k: (dict(v) if isinstance(v, dict) else v) for k, v in base.items()}
-        how = rng.choice(["details", "currency", "loss_details"])
+        how = rng.choice(["details", "currency", "loss_details", "currency_as_detail", "detail_vs_loss_detail", "none_vs_empty"])
         if how == "details":
             kw["details"] = {**kw.get("details", {}), "state": ["NY", "CA", "TX"][i]}
         elif how == "currency":
             kw["currency"] = ["USD", "EUR", "GBP"][i]
-        else:
+        elif how == "loss_details":
             kw["loss_details"] = {"cov": ["a", "b", "c"][i]}
-        out.append(Metadata(**kw))
+        elif how == "currency_as_detail":           # slice 0 may carry currency="USD" as an attribute
+            kws[0] = {**kws[0], "currency": "USD"} if i == 1 else kws[0]
+            kw["details"] = {**kw.get("details", {}), "currency": "USD"}
+            kw["loss_details"] = {"i": i}
+        elif how == "detail_vs_loss_detail":
+            kws[0] = {**kws[0], "details": {**kws[0].get("details", {}), "kk": "v"}} if i == 1 else kws[0]
+            kw["loss_details"] = {"kk": "v", "i": i}
+        else:
+            kw["details"] = {**kw.get("details", {}), "opt": [None, ""][i - 1]}
+        kws.append(kw)
+    spell = rng.random() < 0.4
+    out = []
+    for kw in kws:
+        if not spell:
+            out.append([Metadata(**kw)])
+            continue
+        d = {**kw.get("details", {}), "seven": 7, "yes": True}
+        alt = dict(reversed(list({**d, "seven": 7.0, "yes": 1}.items())))
+        a = Metadata(**{**kw, "details": d, "per_occurrence_limit": 1000})
+        b = Metadata(**{**kw, "details": alt, "per_occurrence_limit": 1000.0})
+        out.append([a, b])
+    try:                                            # the slices must be distinct and sortable
+        firsts = [m[0] for m in out]
+        if len(set(firsts)) != len(firsts) or any(a != b for m in out for a in m for b in m):
+            raise ValueError
+        sorted(firsts)
+    except Exception:  # noqa: BLE001
+        return [[Metadata(country=["US", "DE", "FR"][i])] for i in range(n_slices)]
     return out
+
+
+class _DT(datetime.datetime):
+    pass
+
+
+def coord_forms(rng):
+    """HARDENING D: coordinates handed to the constructor as datetime / pandas.Timestamp / a datetime subclass with
+    a time of day (about one triangle in six); results must hold plain datetime.date."""
+    if rng.random() > 0.17:
+        return lambda d, k: d
+    import pandas as pd
+
+    forms = [lambda d: datetime.datetime(d.year, d.month, d.day, 13, 45), lambda d: pd.Timestamp(d) + pd.Timedelta(hours=23),
+             lambda d: _DT(d.year, d.month, d.day, 0, 0, 1)]
+    rng.shuffle(forms)          # all three coordinates datetime-like: the constructor compares them before it
+    return lambda d, k: forms[k % 3](d)     # normalises, and Python refuses datetime < date
+
+
+def plain_dates(cells):
+    bad = [c for c in cells for x in (c.period_start, c.period_end, c.evaluation_date) if type(x) is not datetime.date]
+    return [f"a result cell holds a {type(bad[0].period_start).__name__}/{type(bad[0].evaluation_date).__name__} coordinate, not a plain date"] if bad else []
 
 
 def coords(rng, shape, P, L, res, feb=None):
     """list of (ps, pe, [evals]) for a complete rectangle / upper-left triangle / single row, column, diagonal.
     feb = a year: periods are laid out so that a period end / evaluation date is the last day of February of it."""
     y0, m0 = rng.randint(2000, 2020), rng.choice([1, 4, 7, 10]) if res != 12 else 1
+    if rng.random() < 0.08:
+        y0 = rng.randint(2180, 2235)             # far future
     if feb is not None:
         # a period ending in February of `feb` sits at index j: start = Feb - (j+1)*res + 1 months
         j = rng.randint(0, max(0, min(P, 3) - 1))
@@ -204,6 +258,7 @@ def gen_boot_triangle(rng):
     rows = coords(rng, shape, P, L, res, feb)
     cells = []
     small_first = rng.random() < 0.35     # minimum of a series small relative to its steps
+    cf = coord_forms(rng)
     for m in metas(rng, n_slices):
         for ps, pe, evs in rows:
             base = {f: rng.randint(50, 500) for f in fields}
@@ -213,7 +268,8 @@ def gen_boot_triangle(rng):
                     vals = {f: (rng.randint(1, 5) if f != "earned_premium" else v) for f, v in vals.items()}
                 if rng.random() < 0.1:
                     vals = {f: float(v) + 0.5 for f, v in vals.items()}
-                cells.append(CumulativeCell(period_start=ps, period_end=pe, evaluation_date=e, values=vals, metadata=m))
+                cells.append(CumulativeCell(period_start=cf(ps, 0), period_end=cf(pe, 1), evaluation_date=cf(e, 2), values=vals,
+                                            metadata=rng.choice(m)))
     rng.shuffle(cells)
     return Triangle(cells), {"shape": shape, "P": P, "L": L, "slices": n_slices, "fields": fields, "feb": feb, "res": res}
 
@@ -230,6 +286,16 @@ def gen_sample_triangle(rng, positive=False):
     pool = list(range(1, 20000))
     rng.shuffle(pool)
     kinds = rng.sample(["B", "scalar", "float", "len1", "none"], rng.randint(1, 4))
+    # HARDENING F/G/I/J: NumPy corner types (narrow dtypes, bool samples, big int64 / float64 scalars, 0-d arrays,
+    # strided views), a field that only appears in later cells, restated cells, nested / overlapping periods
+    extra = ["f32", "i32", "strided", "bigint", "npfloat"] + ([] if positive else ["boolarr", "zero_d", "late"])
+    kinds += rng.sample(extra, rng.choice([0, 0, 1, 2]))
+    cf = coord_forms(rng)
+    if rng.random() < 0.12:                    # nested / overlapping / semi-monthly periods sharing a start or an end
+        base_rows = rows[:2]
+        rows = base_rows + [(ps, D(pe.year, pe.month, 15), evs) for ps, pe, evs in base_rows[:1]] + \
+            [(D(ps.year, ps.month, 16), pe, evs) for ps, pe, evs in base_rows[:1]]
+    restated = (not positive) and rng.random() < 0.1
     # prediction-style triangles: some cells are OBSERVED (scalars in the sampled fields), the others carry
     # samples; "first": the first cell in triangle order is observed, "some": random cells are
     mixed = "no" if positive else rng.choice(["no", "no", "first", "first", "some", "last", "last"])
@@ -249,7 +315,28 @@ def gen_sample_triangle(rng, positive=False):
                     vals["reported_claims"] = np.array([rng.randint(1, 9)], dtype=np.int64)
                 if "none" in kinds and not positive:
                     vals["written_premium"] = None
-                cells.append(CumulativeCell(period_start=ps, period_end=pe, evaluation_date=e, values=vals, metadata=m))
+                if "f32" in kinds:
+                    vals["open_claims"] = a.astype(np.float32)
+                if "i32" in kinds:
+                    vals["closed_claims"] = (a % 30000).astype(np.int16 if n % 2 else np.int32)
+                if "boolarr" in kinds:
+                    vals["reported_count"] = a % 2 == 0
+                if "strided" in kinds:
+                    vals["open_count"] = np.repeat(a, 2)[::2]                       # a non-contiguous view
+                if "bigint" in kinds:
+                    vals["closed_count"] = np.int64(2**60 + int(a[0]))
+                if "npfloat" in kinds:
+                    vals["earned_exposure"] = np.float64(a[0] / 4)
+                if "zero_d" in kinds:
+                    vals["written_exposure"] = np.array(float(a[0]))               # 0-d array: a scalar, left untouched
+                if "late" in kinds and cells:
+                    vals["paid_loss_prior"] = a * 3
+                cells.append(CumulativeCell(period_start=cf(ps, 0), period_end=cf(pe, 1), evaluation_date=cf(e, 2), values=vals,
+                                            metadata=rng.choice(m)))
+                if restated and rng.random() < 0.3:                                 # the same coordinates again, other values
+                    cells.append(CumulativeCell(period_start=ps, period_end=pe, evaluation_date=e,
+                                                values={k_: (v_[::-1].copy() if isinstance(v_, np.ndarray) and v_.ndim else v_)
+                                                        for k_, v_ in vals.items()}, metadata=rng.choice(m)))
     if mixed != "no" and len(cells) > 1:
         order = sorted(range(len(cells)), key=lambda j: cells[j])
         if mixed == "last":
@@ -267,8 +354,8 @@ def gen_sample_triangle(rng, positive=False):
             observed -= {order[-1]}                                   # keep at least one sampled cell
         for j in observed:
             c = cells[j]
-            obs = {f: (int(v[0]) if isinstance(v, np.ndarray) and v.dtype.kind == "i" and len(v) > 1 else
-                       float(v[0]) if isinstance(v, np.ndarray) and len(v) > 1 else v) for f, v in c.values.items()}
+            obs = {f: (int(v[0]) if isinstance(v, np.ndarray) and v.ndim and v.dtype.kind == "i" and len(v) > 1 else
+                       float(v[0]) if isinstance(v, np.ndarray) and v.ndim and len(v) > 1 else v) for f, v in c.values.items()}
             cells[j] = c.replace(values=obs)
     rng.shuffle(cells)
     return Triangle(cells), n, {"shape": shape, "n": n, "slices": n_slices, "kinds": kinds, "mixed": mixed}
@@ -310,7 +397,7 @@ def thin_case(seed):
     info["seed"] = s
     with Recording() as rec:
         try:
-            out, exc = U.thin(t, k, seed=s), None
+            out, exc = (U.thin(t, k, s) if rng.random() < 0.3 else U.thin(t, k, seed=s)), None
         except Exception as ex:  # noqa: BLE001
             out, exc = None, ex
     draws = [d for kind, d in rec.log if kind == "choice"]
@@ -333,6 +420,7 @@ def thin_case(seed):
     else:
         if len(out) != len(t):
             fails.append("number of cells changed")
+        fails += plain_dates(out.cells)
         positions = None
         for c, c2 in zip(t.cells, out.cells):
             if frame(c) != frame(c2) or c.metadata != c2.metadata or list(c.values) != list(c2.values):
@@ -342,7 +430,7 @@ def thin_case(seed):
             stop = False
             for f, v in c.values.items():
                 v2 = c2.values[f]
-                if isinstance(v, np.ndarray) and len(v) > 1:
+                if isinstance(v, np.ndarray) and v.ndim > 0 and len(v) > 1:
                     if not (isinstance(v2, np.ndarray) and v2.dtype == v.dtype):
                         fails.append(f"field {f} @ {c.evaluation_date}: array replaced by {type(v2).__name__}")
                         stop = True
@@ -351,7 +439,13 @@ def thin_case(seed):
                         fails.append(f"field {f} @ {c.evaluation_date}: {len(v2)} samples kept, wanted k={k}")
                         stop = True
                         break
-                    pos = [int(np.where(v == x)[0][0]) if (v == x).any() else -1 for x in v2]   # values are distinct
+                    if ndxs and len(ndxs) == k and not np.array_equal(v2, v[ndxs]):
+                        fails.append(f"field {f} @ {c.evaluation_date}: not the samples at the recorded positions {ndxs}")
+                        stop = True
+                        break
+                    if len(set(v.tolist())) != len(v):          # positions can only be read off distinct values
+                        continue
+                    pos = [int(np.where(v == x)[0][0]) if (v == x).any() else -1 for x in v2]
                     if -1 in pos:
                         fails.append(f"field {f}: thinned values are not samples of the source array")
                         stop = True
@@ -425,12 +519,21 @@ def boot_case(seed):
     t, info = gen_boot_triangle(rng)
     n = rng.choice([1, 2, 3])
     s = rng.choice([0, 0, 1, 2**32 - 1, rng.randrange(10**6), rng.randrange(10**6), rng.randrange(10**6)])
-    fsel = rng.choice([None, None, rng.choice(info["fields"]), rng.sample(info["fields"], rng.randint(1, len(info["fields"])))])
+    fsel = rng.choice([None, None, rng.choice(info["fields"]), rng.sample(info["fields"], rng.randint(1, len(info["fields"]))), []])
     fails, terms, known = [], [], []
     info["seed"] = s
+    positional = rng.random() < 0.3
+    for bad_n in (0, -1):                       # documented refusal, and nothing is returned
+        try:
+            U.bootstrap(t, bad_n, seed=s)
+            fails.append(f"bootstrap(t, {bad_n}, seed) not refused")
+        except ValueError:
+            pass
+        except Exception as ex:  # noqa: BLE001
+            fails.append(f"bootstrap(t, {bad_n}, seed) raised {ex!r} instead of ValueError")
     with Recording() as rec:
         try:
-            reps, exc = U.bootstrap(t, n, seed=s, field=fsel), None
+            reps, exc = (U.bootstrap(t, n, s, fsel) if positional else U.bootstrap(t, n, seed=s, field=fsel)), None
         except Exception as ex:  # noqa: BLE001
             reps, exc = None, ex
     info.update(n=n, field=fsel, outcome="raised:" + type(exc).__name__ if exc else "returned")
@@ -478,6 +581,7 @@ def boot_case(seed):
     if ptr != len(draws):
         fails.append(f"{len(draws)} draws recorded, {ptr} accounted for")
     for i, rep in enumerate(reps[:n]):
+        fails += plain_dates(rep.cells)
         if [frame(c) for c in sorted(rep.cells, key=lambda c: (c.period_start, c.evaluation_date, repr(strip_boot(c.metadata))))] != \
            [frame(c) for c in sorted(t.cells, key=lambda c: (c.period_start, c.evaluation_date, repr(c.metadata)))]:
             fails.append(f"replicate {i}: coordinates differ from the input")
@@ -485,7 +589,7 @@ def boot_case(seed):
             fails.append(f"replicate {i}: field names {sorted(rep.fields)} != {sorted(t.fields)}")
         if any(c.metadata.details.get("bootstrap") != i for c in rep.cells):
             fails.append(f"replicate {i}: detail bootstrap != {i}")
-        if sorted(map(repr, {strip_boot(c.metadata) for c in rep.cells})) != sorted(map(repr, t.metadata)):
+        if {strip_boot(c.metadata) for c in rep.cells} != set(t.metadata):      # by ==, whatever the spelling
             fails.append(f"replicate {i}: slices differ from the input")
         for (m, sl), (method, data) in zip(slices, per_slice):
             rc = [c for c in rep.cells if strip_boot(c.metadata) == m]
@@ -592,6 +696,16 @@ def me_case(seed):
     U = [float(u) for u in np.random.default_rng(rng.randrange(10**6)).uniform(size=n)]
     info = {"shape": style, "L": L, "n": n, "x": x}
     fails, known = [], []
+    if rng.random() < 0.05 and len(set(x)) > 1:  # documented refusal: a missing value cannot be bootstrapped
+        xn = list(x)
+        xn[rng.randrange(1, n)] = None
+        try:
+            B.maximum_entropy_ensemble(xn, list(U), L=(0, mx))
+            fails.append(f"a series with a missing value was not refused: {xn}")
+        except ValueError:
+            pass
+        except Exception as ex:  # noqa: BLE001
+            fails.append(f"a series with a missing value raised {ex!r} instead of ValueError")
     try:
         out, exc = B.maximum_entropy_ensemble(list(x), list(U), L=L), None
     except Exception as ex:  # noqa: BLE001
@@ -692,8 +806,11 @@ def mm_case(seed):
     fsel = rng.sample(avail, rng.randint(1, len(avail)))
     if rng.random() < 0.08:
         fsel.append("nope")
+    if rng.random() < 0.06:
+        fsel = []                                # falsy but valid: nothing to match, nothing may change
     fails = []
-    np.random.seed(rng.randrange(10**6))
+    gseed = rng.choice([0, rng.randrange(10**6)])
+    np.random.seed(gseed)
     with Recording() as rec:
         try:
             out, exc = U.moment_match(t, fsel, dist), None
@@ -728,7 +845,9 @@ def mm_case(seed):
                     v_ = (math.exp(kw["sigma"] ** 2) - 1) * math.exp(2 * kw["mean"] + kw["sigma"] ** 2)
                 else:
                     m_, v_ = kw["shape"] * kw["scale"], kw["shape"] * kw["scale"] ** 2
-                if not (math.isclose(m_, mu, rel_tol=1e-9) and math.isclose(v_, var, rel_tol=1e-7)):
+                # the moments of a float32 / int16 sample are only known to the precision of that dtype
+                tol_m, tol_v = (1e-9, 1e-7) if v.dtype.itemsize >= 8 else (1e-5, 1e-4)
+                if not (math.isclose(m_, mu, rel_tol=tol_m) and math.isclose(v_, var, rel_tol=tol_v)):
                     fails.append(f"{dist} parameters do not match the sample mean/variance: ({m_}, {v_}) vs ({mu}, {var})")
                 perm = [int(x) for x in v.argsort()]
                 tab_p.append(f"({i}%nat, {cstr(f)}, {nats(perm)})")
@@ -743,6 +862,7 @@ def mm_case(seed):
                         fails.append(f"field {f}: rank order of the source samples not kept")
     if ptr != len(draws):
         fails.append(f"{len(draws)} sampler calls recorded, {ptr} accounted for")
+    fails += plain_dates(out.cells)
     for c, c2 in zip(t.cells, out.cells):
         if frame(c) != frame(c2) or c.metadata != c2.metadata or list(c.values) != list(c2.values):
             fails.append("coordinates / metadata / field names changed")
@@ -750,6 +870,10 @@ def mm_case(seed):
         for f, v in c.values.items():
             if (f not in fsel or type(v) is not np.ndarray) and C.canon_value(v) != C.canon_value(c2.values[f]):
                 fails.append(f"field {f}: unselected field or scalar changed")
+    np.random.seed(gseed)                        # the same global seed again: the same triangle
+    again = U.moment_match(t, fsel, dist)
+    if canon(again) != canon(out):
+        fails.append(f"np.random.seed({gseed}) twice gave different moment-matched triangles")
     try:
         fl = "[" + ";".join(cstr(f) for f in fsel) + "]"
         term = (f"(let perms := [{';'.join(tab_p)}] in let draws := [{';'.join(tab_d)}] in let t := {C.ccells(t.cells)} in\n"
